@@ -188,6 +188,7 @@ pub struct Tok {
     pub b: i64,
     pub n: i64,
     pub last: i64,
+    pub p: Mark,
 }
 /// Move-only failure payload.
 #[derive(Debug)]
@@ -195,7 +196,14 @@ pub struct Fail {
     pub b: i64,
     pub n: i64,
     pub last: i64,
+    pub p: Mark,
 }
+/// With feature `nosend` the travelling values are neither Send nor Sync (C19: the non-spawning macros must
+/// not ask for either).
+#[cfg(feature = "nosend")]
+pub type Mark = std::marker::PhantomData<*const ()>;
+#[cfg(not(feature = "nosend"))]
+pub type Mark = std::marker::PhantomData<()>;
 pub type Res = Result<Tok, Fail>;
 pub type Opt = Option<Tok>;
 
@@ -220,7 +228,7 @@ impl Drop for Fail {
 }
 impl Tok {
     pub fn new(b: i64, n: i64, last: i64) -> Tok {
-        Tok { b, n, last }
+        Tok { b, n, last, p: std::marker::PhantomData }
     }
     fn bump(mut self, id: i64) -> Tok {
         self.n += 1;
@@ -228,7 +236,7 @@ impl Tok {
         self
     }
     fn fail(self, id: i64) -> Fail {
-        let f = Fail { b: self.b, n: self.n + 1, last: id };
+        let f = Fail { b: self.b, n: self.n + 1, last: id, p: std::marker::PhantomData };
         std::mem::forget(self);
         f
     }
@@ -243,7 +251,7 @@ impl Fail {
         self
     }
     fn recover(self, id: i64) -> Tok {
-        let t = Tok { b: self.b, n: self.n + 1, last: id };
+        let t = Tok { b: self.b, n: self.n + 1, last: id, p: std::marker::PhantomData };
         std::mem::forget(self);
         t
     }
@@ -433,8 +441,8 @@ pub fn init(id: i64, b: i64) -> Res {
     log(json!({"ev":"init","id":id,"b":b}));
     maybe_panic(format!("i{}", id));
     match act(&format!("f{}", id)).as_str() {
-        "fail" => Err(Fail { b, n: 0, last: id }),
-        _ => Ok(Tok { b, n: 0, last: id }),
+        "fail" => Err(Fail { b, n: 0, last: id, p: std::marker::PhantomData }),
+        _ => Ok(Tok { b, n: 0, last: id, p: std::marker::PhantomData }),
     }
 }
 pub fn oinit(id: i64, b: i64) -> Opt {
@@ -443,22 +451,22 @@ pub fn oinit(id: i64, b: i64) -> Opt {
     maybe_panic(format!("i{}", id));
     match act(&format!("f{}", id)).as_str() {
         "fail" => None,
-        _ => Some(Tok { b, n: 0, last: id }),
+        _ => Some(Tok { b, n: 0, last: id, p: std::marker::PhantomData }),
     }
 }
 /// value of a block-form initial expression (the `cap` event was logged by `cap`)
 pub fn init_q(id: i64, b: i64) -> Res {
     let _q = Quiet::new();
     match act(&format!("f{}", id)).as_str() {
-        "fail" => Err(Fail { b, n: 0, last: id }),
-        _ => Ok(Tok { b, n: 0, last: id }),
+        "fail" => Err(Fail { b, n: 0, last: id, p: std::marker::PhantomData }),
+        _ => Ok(Tok { b, n: 0, last: id, p: std::marker::PhantomData }),
     }
 }
 pub fn oinit_q(id: i64, b: i64) -> Opt {
     let _q = Quiet::new();
     match act(&format!("f{}", id)).as_str() {
         "fail" => None,
-        _ => Some(Tok { b, n: 0, last: id }),
+        _ => Some(Tok { b, n: 0, last: id, p: std::marker::PhantomData }),
     }
 }
 
@@ -544,8 +552,8 @@ pub fn alt(id: i64, b: i64) -> Res {
     log(json!({"ev":"opnd","id":id}));
     maybe_panic(format!("o{}", id));
     match act(&format!("f{}", id)).as_str() {
-        "fail" => Err(Fail { b, n: 0, last: id }),
-        _ => Ok(Tok { b, n: 0, last: id }),
+        "fail" => Err(Fail { b, n: 0, last: id, p: std::marker::PhantomData }),
+        _ => Ok(Tok { b, n: 0, last: id, p: std::marker::PhantomData }),
     }
 }
 /// `..dot(id)` member access
@@ -579,7 +587,7 @@ pub fn oa(id: i64, t: Tok) -> Opt {
 pub fn oo(id: i64, b: i64) -> Opt {
     let _q = Quiet::new();
     let a = enter(id, none_v());
-    let r = if a == "recover" { Some(Tok { b, n: 0, last: id }) } else { None };
+    let r = if a == "recover" { Some(Tok { b, n: 0, last: id, p: std::marker::PhantomData }) } else { None };
     exit(id, r.snap());
     r
 }
@@ -599,7 +607,7 @@ pub fn ot(id: i64, b: i64, r: Opt) -> Opt {
             None
         }
         ("fail", None) => None,
-        ("recover", None) => Some(Tok { b, n: 0, last: id }),
+        ("recover", None) => Some(Tok { b, n: 0, last: id, p: std::marker::PhantomData }),
         (_, Some(t)) => Some(t.bump(id)),
         (_, None) => None,
     };
@@ -617,7 +625,7 @@ pub fn oalt(id: i64, b: i64) -> Opt {
     maybe_panic(format!("o{}", id));
     match act(&format!("f{}", id)).as_str() {
         "fail" => None,
-        _ => Some(Tok { b, n: 0, last: id }),
+        _ => Some(Tok { b, n: 0, last: id, p: std::marker::PhantomData }),
     }
 }
 
@@ -669,7 +677,7 @@ pub fn h(args: &mut [Arg]) -> Tok {
     let vals = take_args(args);
     log(json!({"ev":"hcall","args":vals}));
     maybe_panic("hc".to_string());
-    Tok { b: 100, n, last: 0 }
+    Tok { b: 100, n, last: 0, p: std::marker::PhantomData }
 }
 /// `and_then` handler body (Result carrier)
 pub fn hr(args: &mut [Arg]) -> Res {
@@ -679,9 +687,9 @@ pub fn hr(args: &mut [Arg]) -> Res {
     log(json!({"ev":"hcall","args":vals}));
     maybe_panic("hc".to_string());
     if act("hc") == "fail" {
-        Err(Fail { b: 100, n, last: 0 })
+        Err(Fail { b: 100, n, last: 0, p: std::marker::PhantomData })
     } else {
-        Ok(Tok { b: 100, n, last: 0 })
+        Ok(Tok { b: 100, n, last: 0, p: std::marker::PhantomData })
     }
 }
 pub fn ho(args: &mut [Arg]) -> Opt {
@@ -693,7 +701,7 @@ pub fn ho(args: &mut [Arg]) -> Opt {
     if act("hc") == "fail" {
         None
     } else {
-        Some(Tok { b: 100, n, last: 0 })
+        Some(Tok { b: 100, n, last: 0, p: std::marker::PhantomData })
     }
 }
 
@@ -889,16 +897,16 @@ pub fn ainit(id: i64, b: i64) -> GF<Res> {
     log(json!({"ev":"init","id":id,"b":b}));
     maybe_panic(format!("i{}", id));
     let r = match act(&format!("f{}", id)).as_str() {
-        "fail" => Err(Fail { b, n: 0, last: id }),
-        _ => Ok(Tok { b, n: 0, last: id }),
+        "fail" => Err(Fail { b, n: 0, last: id, p: std::marker::PhantomData }),
+        _ => Ok(Tok { b, n: 0, last: id, p: std::marker::PhantomData }),
     };
     gf(id, r, false)
 }
 pub fn ainit_q(id: i64, b: i64) -> GF<Res> {
     let _q = Quiet::new();
     let r = match act(&format!("f{}", id)).as_str() {
-        "fail" => Err(Fail { b, n: 0, last: id }),
-        _ => Ok(Tok { b, n: 0, last: id }),
+        "fail" => Err(Fail { b, n: 0, last: id, p: std::marker::PhantomData }),
+        _ => Ok(Tok { b, n: 0, last: id, p: std::marker::PhantomData }),
     };
     gf(id, r, false)
 }
